@@ -6,14 +6,15 @@ CFG = {
     "level": "exploration",
     "level_text": ("seeded exploration on a real standalone node in a fake-clock bubble: bursts of acknowledged batches (each its own memory part), a fixed set of queries answered before any maintenance, "
                    "then tape-chosen clock steps that let the real flusher and merger run, the same queries re-asked after every step; every answer must equal the row model and (without version ties) "
-                   "the answer given before maintenance. Flushes/merges are observed model-free from the part directories on disk"),
+                   "the answer given before maintenance. Flushes/merges are observed model-free from the part directories on disk"
+                   " A third scenario drives the ordered secondary index (sidx) through its public step API: the simulator flushes tape-chosen memory parts and merges ARBITRARY subsets of file parts, and after every step both query interfaces must return every entry ever written exactly once."),
     "level_note": "trusted: registry stub, row model, the directory-listing observation of flush/merge; which parts merge is decided by the engine's size policy under a tape-chosen fan-in and multiplier (arbitrary subsets through the sidx step API are a separate scenario)",
     "budget": {"quick": 60, "thorough": 1200},
     "rule": ("each seed draws schema, flush timeout, merge fan-in/multiplier; 1-4 rounds of [1-8 batches of 1-300 rows (rarely 9000), 1-3 fixed queries, 1-6 clock steps of 0.5s..11min]. "
              "Non-trivial = at least one flush or merge observed on disk; distinct = canonical event-log digests"),
-    "expected_probes": ["reach.flush_created_part", "reach.merge_replaced_parts"],
+    "expected_probes": ["reach.sidx_flush", "reach.sidx_merge_arbitrary_subset", "reach.sidx_merge_proper_subset", "reach.flush_created_part", "reach.merge_replaced_parts"],
     "real_vs_stub": {
-        "real": ["banyand/measure and banyand/stream: introducer, flusher, merger, gc, snapshots, query", "banyand/internal/storage", "liaison front-end services", "banyand/query + pkg/query"],
+        "real": ["banyand/internal/sidx (ConvertToMemPart, IntroduceMemPart, Flush, IntroduceFlushed, Merge of arbitrary subsets, IntroduceMerged, StreamingQuery, QuerySync)", "banyand/measure and banyand/stream: introducer, flusher, merger, gc, snapshots, query", "banyand/internal/storage", "liaison front-end services", "banyand/query + pkg/query"],
         "stub": ["metadata registry (simmeta)", "gRPC transport", "clock (testing/synctest)"],
     },
     "assumptions": STD_ASSUME,
